@@ -44,6 +44,9 @@ type bulkStream struct {
 	expect  map[int64]string // seq -> normalised standalone payload or "error:<...>"
 	nOK     int              // requests the decoder will accept
 	decErr  bool             // the stream ends in a decode error
+	ctx       context.Context
+	cancel    context.CancelFunc
+	cancelled bool // the caller's context was cancelled while the stream was open
 }
 
 func init() {
@@ -124,6 +127,14 @@ func planBulk(c *Ctx, run int64, prop string, malformed bool) *Plan {
 	for i := 0; i < ns; i++ {
 		p.Sched = append(p.Sched, r.IntN(1<<16))
 	}
+	// the caller of a stream goes away at a moment the scheduler chooses: its context is
+	// cancelled (CLI-style) / the client disconnects (HTTP-style) while the input still delivers
+	for s := 0; s < nstreams; s++ {
+		if Chance(r, 0.2) {
+			p.Knobs[fmt.Sprintf("cancel%d", s)] = 1
+		}
+	}
+	p.Knobs["w:cancel"] = Pick(r, []int64{1, 1, 2, 6})
 	return p
 }
 
@@ -494,6 +505,7 @@ func execBulk(x *X) {
 		if chunk > 0 {
 			st.rd.Chunks = []int{chunk}
 		}
+		st.rd.EOFWithData = (x.P.Run+int64(st.idx))%2 == 0
 		name := fmt.Sprintf("s%d/in", st.idx)
 		st.rd.Gate = func(r *SimReader) { sch.Yield(name, "delivery", "read", 0) }
 		st.opts = &cli.BulkOptions{In: st.rd, DefaultPrivateKey: PrivKey(0)}
@@ -589,11 +601,25 @@ func execBulk(x *X) {
 		}
 	}
 	sch.Env = func() []Action {
+		var acts []Action
+		for _, st := range streams {
+			st := st
+			st.mu.Lock()
+			open := !st.closed
+			st.mu.Unlock()
+			if open && !st.cancelled && st.cancel != nil && x.P.Knob(fmt.Sprintf("cancel%d", st.idx), 0) == 1 {
+				acts = append(acts, Action{Name: fmt.Sprintf("cancel-s%d", st.idx), Class: "cancel", Do: func() {
+					st.cancelled = true
+					st.cancel()
+					x.Fault("caller-cancelled-mid-stream")
+				}})
+			}
+		}
 		if len(sleepers) == 0 {
-			return nil
+			return acts
 		}
 		sort.Slice(sleepers, func(i, j int) bool { return sleepers[i].at.Before(sleepers[j].at) })
-		return []Action{{Name: "clock", Class: "clock", Do: func() {
+		return append(acts, Action{Name: "clock", Class: "clock", Do: func() {
 			s := sleepers[0]
 			sleepers = sleepers[1:]
 			if d := time.Until(s.at); d > 0 {
@@ -601,7 +627,7 @@ func execBulk(x *X) {
 				x.Fault("clock-advance")
 				x.Probe("clock-advanced-for-sleep")
 			}
-		}}}
+		}})
 	}
 	// start the streams; HTTP-style streams share one server instance, as concurrent requests to a real server do
 	httpServer := HTTPHandler(PrivKey(0))
@@ -609,6 +635,8 @@ func execBulk(x *X) {
 	for _, st := range streams {
 		st := st
 		wg.Add(1)
+		st.ctx, st.cancel = context.WithCancel(context.Background())
+		defer st.cancel()
 		outName := fmt.Sprintf("s%d/out", st.idx)
 		if st.style == "http" {
 			st.httpOut = NewSimWriter(x, outName)
@@ -619,7 +647,7 @@ func execBulk(x *X) {
 				if x.P.Knob(fmt.Sprintf("indent%d", st.idx), 0) == 1 {
 					target = "/bulk?indent=true"
 				}
-				req := httptest.NewRequest(http.MethodPost, target, nil)
+				req := httptest.NewRequest(http.MethodPost, target, nil).WithContext(st.ctx)
 				req.Body = simBody{st.rd}
 				gw := &gateWriter{hdr: http.Header{}, w: st.httpOut}
 				httpServer.ServeHTTP(gw, req)
@@ -630,7 +658,7 @@ func execBulk(x *X) {
 		} else {
 			go func() {
 				defer wg.Done()
-				ch := cli.Bulk(context.Background(), st.opts)
+				ch := cli.Bulk(st.ctx, st.opts)
 				for {
 					sch.Yield(outName, "consumer", "recv", 0)
 					res, ok := <-ch
@@ -733,6 +761,18 @@ func (x *X) checkStream(st *bulkStream) {
 		x.Probe("stream-ended-in-decode-error")
 	}
 	n := st.nOK
+	if st.cancelled {
+		// The caller went away. What must still hold: the stream ends, with one final marker, last;
+		// nothing is answered twice or under a wrong id; every request the decoder accepted (the
+		// final marker's position says how many) is answered. Requests after the cancellation may
+		// fail, and the input may be cut short.
+		x.Probe("stream-cancelled-by-caller")
+		for _, r := range resp {
+			if r.IsFinal && r.SeqID >= 1 && r.SeqID <= int64(st.nOK+1) {
+				n = int(r.SeqID - 1)
+			}
+		}
+	}
 	seen := map[int64]int{}
 	finals := 0
 	inOrder := true
@@ -746,7 +786,7 @@ func (x *X) checkStream(st *bulkStream) {
 			if r.SeqID != int64(n+1) {
 				x.Violate("final-seq", "%s: final marker has seq_id %d, expected %d", where, r.SeqID, n+1)
 			}
-			if r.hasError() != st.decErr {
+			if r.hasError() != st.decErr && !st.cancelled {
 				x.Violate("final-error", "%s: final marker error=%s but the stream ended in a decode error=%v", where, r.Error, st.decErr)
 			}
 			continue
@@ -768,6 +808,8 @@ func (x *X) checkStream(st *bulkStream) {
 		want, ok := st.expect[r.SeqID]
 		if !ok {
 			x.Violate("response-without-execution", "%s: response for seq_id %d although its worker was never started", where, r.SeqID)
+		} else if got != want && st.cancelled && r.hasError() {
+			x.Probe("request-failed-after-cancellation")
 		} else if got != want {
 			x.Violate("payload-differs:"+rq.Action, "%s: request %d (%s %s) payload differs from the standalone execution at the same instant\n  got  %s\n  want %s", where, r.SeqID, rq.Action, rq.ReqID, trunc(got, 400), trunc(want, 400))
 		}
